@@ -8,7 +8,7 @@ From CV Require Import Conc.Sched Conc.Gauge.
 (* the value a thread observed when it entered a gauge's region *)
 Definition obs_run (l : glocal) : Z :=
   match l with
-  | Caller _ _ (GAdded v | GRejecting v | GEnter v | GInFlight v | GExited v) => v
+  | Caller _ _ (GAdded v | GRejecting v | GEnter v | GTimed v _ | GInFlight v | GExited v) => v
   | _ => 0
   end.
 Definition obs_fb (l : glocal) : Z :=
@@ -20,20 +20,20 @@ Definition run_le (k : Z) (l : glocal) : bool := holds_run l && (obs_run l <=? k
 Definition fb_le (k : Z) (l : glocal) : bool := holds_fb l && (obs_fb l <=? k).
 (* a thread past the limit test observed a value within the limit *)
 Definition run_passed (m : Z) (l : glocal) : Prop :=
-  match l with Caller _ _ (GEnter v | GInFlight v | GExited v) => v <= m | _ => True end.
+  match l with Caller _ _ (GEnter v | GTimed v _ | GInFlight v | GExited v) => v <= m | _ => True end.
 Definition fb_passed (m : Z) (l : glocal) : Prop :=
   match l with Caller _ _ (GFbEnter w | GFbInFlight w | GFbExited w _) => w <= m | _ => True end.
 
 Ltac gsimpl :=
   cbn [holds_run holds_fb obs_run obs_fb run_le fb_le andb b2z run_passed fb_passed
        rejecting_run rejecting_fb is_setter fst snd
-       g_cmds g_max g_fbs g_fbmax g_fbdis set_cmds set_fbs] in *.
+       g_cmds g_max g_fbs g_fbmax g_fbdis g_timeout set_cmds set_fbs] in *.
 Ltac gifs :=
   repeat match goal with |- context [if ?b then _ else _] => destruct b eqn:? end.
 Ltac gcases := gifs; gsimpl; unfold b2z; gifs.
 
 Section GaugeProofs.
-Variables (max fbmax : Z) (fbdis : bool).
+Variables (tmo max fbmax : Z) (fbdis : bool).
 
 (* ---------- the gauges count their regions: any pool ---------- *)
 Definition InvC (s : gshared * list glocal) : Prop :=
@@ -44,7 +44,7 @@ Lemma fresh_no_region l :
   holds_run l = false /\ holds_fb l = false /\ run_passed max l /\ fb_passed fbmax l /\
   rejecting_run l = false /\ rejecting_fb l = false.
 Proof.
-  destruct l as [run fb pc | m fm fd n | n]; [destruct pc| |]; cbn; intros H;
+  destruct l as [run fb pc | tm m fm fd n | n]; [destruct pc| |]; cbn; intros H;
     try discriminate; repeat split.
 Qed.
 
@@ -59,7 +59,7 @@ Proof.
   intros l Hl. apply fresh_no_region in Hl. tauto.
 Qed.
 
-Lemma invC_init pool : all_fresh pool -> InvC (ginit max fbmax fbdis, pool).
+Lemma invC_init pool : all_fresh pool -> InvC (ginit tmo max fbmax fbdis, pool).
 Proof.
   intros H. unfold InvC. cbn [fst snd ginit g_cmds g_fbs].
   rewrite fresh_cnt_run, fresh_cnt_fb by assumption. split; reflexivity.
@@ -70,15 +70,15 @@ Proof.
   intros HI Hs. destruct Hs as [sh pool i lo sh' lo' lb Hn Ht].
   unfold InvC in *. cbn [fst snd] in *. destruct HI as (Hc & Hf).
   rewrite (cnt_upd _ holds_run _ _ _ _ Hn), (cnt_upd _ holds_fb _ _ _ _ Hn).
-  destruct lo as [run fb pc | m fm fd n | n].
+  destruct lo as [run fb pc | tm m fm fd n | n].
   - destruct pc; destruct run; destruct fb; cbn [gstep1] in Ht;
       inversion Ht; subst; clear Ht; gsimpl; gcases; lia.
-  - destruct n as [|[|[|n]]]; cbn [gstep1] in Ht; inversion Ht; subst; clear Ht; gsimpl; lia.
+  - destruct n as [|[|[|[|n]]]]; cbn [gstep1] in Ht; inversion Ht; subst; clear Ht; gsimpl; lia.
   - destruct n as [|[|n]]; cbn [gstep1] in Ht; inversion Ht; subst; clear Ht; gsimpl; lia.
 Qed.
 
 Lemma gauges_count : forall pool s,
-  all_fresh pool -> reach gstep1 (ginit max fbmax fbdis, pool) s ->
+  all_fresh pool -> reach gstep1 (ginit tmo max fbmax fbdis, pool) s ->
   g_cmds (fst s) = cnt holds_run (snd s) /\ g_fbs (fst s) = cnt holds_fb (snd s).
 Proof.
   intros pool s Hf Hr.
@@ -87,12 +87,12 @@ Qed.
 
 Lemma finished_no_region l : finished l = true -> holds_run l = false /\ holds_fb l = false.
 Proof.
-  destruct l as [run fb pc | m fm fd n | n]; [destruct pc| |]; cbn; intros H;
+  destruct l as [run fb pc | tm m fm fd n | n]; [destruct pc| |]; cbn; intros H;
     try discriminate; split; reflexivity.
 Qed.
 
 Lemma quiescent_zero : forall pool s,
-  all_fresh pool -> reach gstep1 (ginit max fbmax fbdis, pool) s ->
+  all_fresh pool -> reach gstep1 (ginit tmo max fbmax fbdis, pool) s ->
   Forall (fun l => finished l = true) (snd s) ->
   g_cmds (fst s) = 0 /\ g_fbs (fst s) = 0.
 Proof.
@@ -118,7 +118,7 @@ Proof. apply cnt_le_mono. unfold run_le. intros x Hx. apply andb_true_iff in Hx.
 Lemma fb_le_holds k pool : cnt (fb_le k) pool <= cnt holds_fb pool.
 Proof. apply cnt_le_mono. unfold fb_le. intros x Hx. apply andb_true_iff in Hx. tauto. Qed.
 
-Lemma inv_init pool : all_fresh pool -> no_setters pool -> Inv (ginit max fbmax fbdis, pool).
+Lemma inv_init pool : all_fresh pool -> no_setters pool -> Inv (ginit tmo max fbmax fbdis, pool).
 Proof.
   intros Hf Hns. unfold Inv. cbn [ginit g_cmds g_max g_fbs g_fbmax].
   pose proof (fresh_cnt_run pool Hf) as H1. pose proof (fresh_cnt_fb pool Hf) as H2.
@@ -167,7 +167,7 @@ Proof.
       exact (nth_error_Forall _ _ _ _ _ (Hpf H) Hn).
     - intro H. apply Forall_upd; auto.
     - intro H. apply Forall_upd; auto. }
-  destruct lo as [run fb pc | m fm fd n | n]; [ | discriminate Hlo | ].
+  destruct lo as [run fb pc | tm m fm fd n | n]; [ | discriminate Hlo | ].
   - destruct pc; destruct run; destruct fb; cbn [gstep1] in Ht;
       inversion Ht; subst; clear Ht; apply Hstep; clear Hstep;
       gsimpl; intros; gcases; try reflexivity; try assumption; try lia.
@@ -176,7 +176,7 @@ Proof.
 Qed.
 
 Lemma inv_reachable pool s :
-  all_fresh pool -> no_setters pool -> reach gstep1 (ginit max fbmax fbdis, pool) s -> Inv s.
+  all_fresh pool -> no_setters pool -> reach gstep1 (ginit tmo max fbmax fbdis, pool) s -> Inv s.
 Proof.
   intros Hf Hns Hr.
   exact (inv_reach _ _ _ Inv _ (inv_init pool Hf Hns) inv_step s Hr).
@@ -188,7 +188,7 @@ Proof.
   intros Hf. induction Hf as [|x l Hx Hl IH]; [rewrite !cnt_nil; lia|].
   rewrite !cnt_cons.
   assert (b2z (run_inflight x) <= b2z (run_le max x)); [|lia].
-  destruct x as [run fb pc | m fm fd n | n]; [destruct pc| |];
+  destruct x as [run fb pc | tm m fm fd n | n]; [destruct pc| |];
     cbn [run_inflight] in *; gsimpl; gcases; lia.
 Qed.
 
@@ -198,13 +198,13 @@ Proof.
   intros Hf. induction Hf as [|x l Hx Hl IH]; [rewrite !cnt_nil; lia|].
   rewrite !cnt_cons.
   assert (b2z (fb_inflight x) <= b2z (fb_le fbmax x)); [|lia].
-  destruct x as [run fb pc | m fm fd n | n]; [destruct pc| |];
+  destruct x as [run fb pc | tm m fm fd n | n]; [destruct pc| |];
     cbn [fb_inflight] in *; gsimpl; gcases; lia.
 Qed.
 
 Lemma run_bound : forall pool s,
   0 <= max -> all_fresh pool -> no_setters pool ->
-  reach gstep1 (ginit max fbmax fbdis, pool) s -> cnt run_inflight (snd s) <= max.
+  reach gstep1 (ginit tmo max fbmax fbdis, pool) s -> cnt run_inflight (snd s) <= max.
 Proof.
   intros pool s Hm Hf Hns Hr. pose proof (inv_reachable pool s Hf Hns Hr) as HI.
   destruct s as [sh p]. destruct HI as (_ & _ & _ & _ & _ & Hk & _ & Hp & _).
@@ -213,7 +213,7 @@ Qed.
 
 Lemma fb_bound : forall pool s,
   0 <= fbmax -> all_fresh pool -> no_setters pool ->
-  reach gstep1 (ginit max fbmax fbdis, pool) s -> cnt fb_inflight (snd s) <= fbmax.
+  reach gstep1 (ginit tmo max fbmax fbdis, pool) s -> cnt fb_inflight (snd s) <= fbmax.
 Proof.
   intros pool s Hm Hf Hns Hr. pose proof (inv_reachable pool s Hf Hns Hr) as HI.
   destruct s as [sh p]. destruct HI as (_ & _ & _ & _ & _ & _ & Hk & _ & Hp & _).
@@ -221,7 +221,7 @@ Proof.
 Qed.
 
 Lemma unlimited : forall pool s,
-  all_fresh pool -> no_setters pool -> reach gstep1 (ginit max fbmax fbdis, pool) s ->
+  all_fresh pool -> no_setters pool -> reach gstep1 (ginit tmo max fbmax fbdis, pool) s ->
   (max < 0 -> cnt rejecting_run (snd s) = 0) /\ (fbmax < 0 -> cnt rejecting_fb (snd s) = 0).
 Proof.
   intros pool s Hf Hns Hr. pose proof (inv_reachable pool s Hf Hns Hr) as HI.
